@@ -31,6 +31,12 @@ UnkClauses(r) ==
   [ apply_rejects_unknown |-> (~r.apply /\ ~ApplyAccepts(r.inp)),
     apply_rejects_unknown_after_valid |-> ~r.apply_hist ]
 
+\* a list that names a step more than once is judged like any other list:
+\* every occurrence needs its required steps before it
+RepClauses(r) ==
+  [ apply_iff_repeated |-> (r.apply = ApplyAccepts(r.inp)),
+    apply_iff_repeated_after_valid |-> (r.apply_hist = ApplyAccepts(r.inp)) ]
+
 \* the list of available steps
 AvClauses(r) ==
   [ available_all   |-> (Range(r.inp) = Steps /\ Len(r.inp) = Cardinality(Steps)),
@@ -39,6 +45,7 @@ AvClauses(r) ==
 Clauses(r) == CASE r.kind = "selection" -> SelClauses(r)
                 [] r.kind = "unknown"   -> UnkClauses(r)
                 [] r.kind = "available" -> AvClauses(r)
+                [] r.kind = "repeated"  -> RepClauses(r)
 
 Failed(r) == LET c == Clauses(r) IN {n \in DOMAIN c : ~c[n]}
 
